@@ -514,7 +514,7 @@ double iwstrtod(const char *str, char **end) {
       while (*p == '0') {
         ++p;
       }
-      if (*p == '\0') {
+      if (!iwchars_is_digit(*p)) { // exponent of zeros only: step back to the last zero
         --p;
       }
       e = (*p++ - '0');
